@@ -2,7 +2,7 @@
 import warnings
 
 from . import ops as O
-from .xmlmodel import T
+from .xmlmodel import T, N
 
 
 # ---------------------------------------------------------------------------
@@ -29,10 +29,12 @@ def plan_batches(steps, R, P, faulty):
 
     if create['mid'] > 3 and R.random() < 0.3:
         # a message filed with an id lower than the roCreate's: it sorts - and is applied - first
-        low = create['mid'] - R.randint(1, min(create['mid'] - 1, 50))
-        steps.append({'k': 'msg', 'op': {'type': R.choice(['ReadyToAir', 'StoryDelete']), 'ro_id': ro_id, 'mid': low, 'env': {},
-                                          'sources': ['nosuch-early'], 'shapes': {}},
-                      'knobs': {}, 'path': 'str', 'merge': False, 'extra': True})
+        lows = sorted(set(create['mid'] - R.randint(1, min(create['mid'] - 1, 60)) for _ in range(R.randint(1, 4))))
+        for low in lows:
+            steps.append({'k': 'msg', 'op': {'type': R.choice(['ReadyToAir', 'StoryDelete', 'StoryAppend']), 'ro_id': ro_id, 'mid': low,
+                                              'env': {}, 'sources': ['nosuch-early'], 'shapes': {},
+                                              'payload': [N('story', T('storyID', 'early-%d' % low), T('storySlug', 'early'))]},
+                          'knobs': {}, 'path': 'str', 'merge': False, 'extra': True})
         st = _store_steps(steps)
     usable = [i for i, s in enumerate(st) if s['op']['type'] != 'Raw' and not s.get('corrupt') and not s['op'].get('malformed') and not s.get('remid')]
     n_batches = R.choice([1, 1, 2, 3])
